@@ -81,9 +81,9 @@ def run_dirk(args, storage, wd, timeout=60):
     return p.returncode, p.stdout, p.stderr
 
 
-def priors_for(k, rec, idx):
+def priors_for(k, rec, idx, v1=False):
     out = []
-    fmt = "gob" if idx % 3 == 0 else "v1"
+    fmt = "gob" if idx % 3 == 0 and not v1 else "v1"
     if rec["s"] != -1:
         out.append(dict(k=k, kind="att", s=rec["s"], t=rec["t"], fmt=fmt))
     if rec["ps"] != -1:
@@ -116,9 +116,9 @@ def one_case(job):
     k1prior = dict(s=1, t=2, ps=1)
     extra = []
     for j in range(2, nk):     # a well-filled database: many more keys, each with an attestation and a proposal record of its own
-        extra += priors_for(j, dict(s=j % 3, t=j % 3 + 1, ps=(j * 7) % 4), j)
-    scA = dict(id=sid, world=world, conc=conc, dir=db, keep_dir=True, prior=priors_for(0, case["before"], idx) + priors_for(1, k1prior, idx + 1) + extra,
-               ops=[dict(id="before", kind="export")], no_export=True)
+        extra += priors_for(j, dict(s=j % 3, t=j % 3 + 1, ps=(j * 7) % 4), j, True)    # current record format throughout, as Dirk itself writes
+    scA = dict(id=sid, world=world, conc=conc, dir=db, keep_dir=True, prior=priors_for(0, case["before"], idx, big) + priors_for(1, k1prior, idx + 1, big) + extra,
+               ops=[dict(id="before", kind="export")], no_export=True, raw_dump=True)
     pre, rc, err = run_driver([scA], jd, tag="pre", timeout=120)
     if rc != 0:
         return dict(error="pre driver rc=%s %s" % (rc, err[-200:]))
@@ -164,7 +164,7 @@ def one_case(job):
     f = os.path.join(jd, "file.json")
     json.dump(dict(metadata=meta, data=data), open(f, "w"))
     irc, out, errtxt = run_dirk(["--import-slashing-protection", "--genesis-validators-root=" + GVR, "--slashing-protection-file=" + f], db, jd)
-    scB = dict(id=sid, world=world, conc=conc, dir=db, keep_dir=False,
+    scB = dict(id=sid, world=world, conc=conc, dir=db, keep_dir=False, raw_dump=True,
                ops=[dict(id="after", kind="export")] + probes_for(0, NV, "x") + probes_for(1, NV, "y"))
     post, rc2, err2 = run_driver([scB], jd, tag="post", timeout=120)
     shutil.rmtree(jd, ignore_errors=True)
@@ -181,8 +181,9 @@ def db_of(ev):
 def project_case(r, lines):
     case = r["case"]
     lines.append(dict(ev="Begin", sc=r["sid"]))
-    before = [e for e in r["pre"] if e["ev"] == "Export"][0]
-    after = [e for e in r["post"] if e["ev"] == "Export" and e.get("r") == "after"][0]
+    # the database before and after the import, read through badger directly (no code of the repository involved)
+    before = [e for e in r["pre"] if e["ev"] == "RawDump" and e["r"] == "raw-after"][0]
+    after = [e for e in r["post"] if e["ev"] == "RawDump" and e["r"] == "raw-before"][0]
     b = case["before"]
     lines.append(dict(ev="Floor", k="k0", s=b["s"], t=b["t"], slot=b["ps"]))
     lines.append(dict(ev="Floor", k="k1", s=1, t=2, slot=1))
@@ -218,7 +219,11 @@ def run_c10(tier, seed):
         pubs = json.loads(subprocess.run([exe, "-pubkeys", "70"], stdout=subprocess.PIPE, text=True).stdout)
         concs = [c for c in concretisations(3, seed, 0)]
         # a few cases on a database with more than a hundred records (140): per-record handling must not depend on the record count
-        bigcases = [dict(c, big=True) for c in cases if c["meta"] == "ok"][:4 if tier == "quick" else 24]
+        # (key k0 holds both kinds of record there, like every other key, and the file's data for it is older than its own history)
+        def older(c):
+            b = c["before"]
+            return b["s"] >= 0 and b["t"] >= 0 and b["ps"] >= 0 and any(e["slot"] < b["ps"] or e["att"]["t"] < b["t"] for e in c["file"])
+        bigcases = [dict(c, big=True) for c in cases if c["meta"] == "ok" and older(c)][:4 if tier == "quick" else 24]
         cases = cases + bigcases
         jobs = []
         for i, c in enumerate(cases):
@@ -240,7 +245,7 @@ def run_c10(tier, seed):
             if (r["rc"] == 0) != model_ok and r["case"]["meta"] != "badnumber" and len(drift) < 20:
                 drift.append(dict(case=r["case"], rc=r["rc"], stderr=r["stderr"]))
             if r["rc"] == 0 and r["case"].get("after") and r["case"]["meta"] == "ok":
-                after = [e for e in r["post"] if e["ev"] == "Export" and e.get("r") == "after"][0]["db"].get("k0", {"as": -1, "at": -1, "ps": -1})
+                after = [e for e in r["post"] if e["ev"] == "RawDump" and e["r"] == "raw-before"][0]["db"].get("k0", {"as": -1, "at": -1, "ps": -1})
                 want = r["case"]["after"]
                 if (after["as"], after["at"], after["ps"]) != (want["s"], want["t"], want["ps"]) and len(drift) < 20:
                     drift.append(dict(case=r["case"], got=after))
